@@ -585,13 +585,27 @@ func c13r6(r *R) {
 // edgeGuards: conditions that hold when control goes from pred to succ (pred's dominating guards plus its own branch literal).
 func edgeGuards(c *Ctx, pred, succ *ssa.BasicBlock) []string {
 	out := c.guardStrs(pred)
-	if len(pred.Instrs) > 0 {
-		if iff, ok := pred.Instrs[len(pred.Instrs)-1].(*ssa.If); ok && pred.Succs[0] != pred.Succs[1] {
-			if pred.Succs[0] == succ {
-				out = append(out, canonGuard(true, c.Expr(iff.Cond)))
-			} else if pred.Succs[1] == succ {
-				out = append(out, canonGuard(false, c.Expr(iff.Cond)))
+	if useDomGuards {
+		if len(pred.Instrs) > 0 {
+			if iff, ok := pred.Instrs[len(pred.Instrs)-1].(*ssa.If); ok && pred.Succs[0] != pred.Succs[1] {
+				if pred.Succs[0] == succ {
+					out = append(out, canonGuard(true, c.Expr(iff.Cond)))
+				} else if pred.Succs[1] == succ {
+					out = append(out, canonGuard(false, c.Expr(iff.Cond)))
+				}
 			}
+		}
+		return out
+	}
+	// what the edge itself adds (its branch literal; for a branch on a flag, the conditions the flag stands for) comes last
+	have := map[string]bool{}
+	for _, g := range out {
+		have[g] = true
+	}
+	for _, g := range c.pathEdgeGuards(pred, succ) {
+		if !have[g] {
+			have[g] = true
+			out = append(out, g)
 		}
 	}
 	return out
